@@ -61,12 +61,14 @@ def families(tier):
             tri.append(c)
     F["triclinic-grid"] = tri
     nd = []
-    for c in [(2.0, 3.1, 4.3, 60.0, 60.0, 119.0), (2.0, 3.1, 4.3, 119.0, 60.0, 60.0), (2.0, 3.1, 4.3, 60.0, 119.0, 60.0),
-              (2.0, 3.1, 4.3, 120.0, 120.0, 119.0), (2.0, 3.1, 4.3, 119.5, 120.0, 120.0), (4.3, 2.0, 3.1, 45.0, 46.0, 90.0),
-              (4.3, 2.0, 3.1, 90.0, 45.0, 46.0), (3.0, 3.0, 3.0, 119.9, 119.9, 119.9), (12.0, 0.6, 19.0, 100.0, 30.0, 128.0)]:
-        assert S.positivity(c) > 0
-        if MIN_RATIO <= S.height_ratio(c) < 0.1:
-            nd.append(c)
+    for c in [(2.0, 3.1, 4.3, 60.0, 60.0, 119.0), (2.0, 3.1, 4.3, 119.0, 60.0, 60.0), (2.0, 3.1, 4.3, 120.0, 120.0, 119.0),
+              (4.3, 2.0, 3.1, 45.0, 46.0, 90.0), (12.0, 0.6, 19.0, 100.0, 30.0, 128.0), (3.0, 3.0, 3.0, 119.9, 119.9, 119.9),
+              (2.0, 3.1, 4.3, 60.0, 60.0, 119.9), (2.0, 3.1, 4.3, 119.9, 60.0, 60.0), (2.0, 3.1, 4.3, 60.0, 119.9, 60.0),
+              (2.0, 3.1, 4.3, 120.0, 120.0, 119.9), (2.0, 3.1, 4.3, 119.95, 120.0, 120.0), (4.3, 2.0, 3.1, 45.0, 45.05, 90.0),
+              (4.3, 2.0, 3.1, 90.0, 45.0, 45.05), (3.0, 3.0, 3.0, 119.99, 119.99, 119.99), (5.0, 5.0, 5.0, 30.0, 30.0, 59.9),
+              (5.0, 5.0, 5.0, 135.0, 135.0, 89.9)]:
+        assert S.positivity(c) > 0 and MIN_RATIO <= S.height_ratio(c) < 0.21, c
+        nd.append(c)
     F["near-degenerate"] = nd
     return F
 
@@ -85,6 +87,15 @@ def rotations(seed, n):
 # ------------------------------------------------------------------------------------------------
 # contracts
 # ------------------------------------------------------------------------------------------------
+def _t(c):
+    return tuple(round(float(x), 6) for x in c)
+
+
+def _cond(family):
+    """witness class component: conditioning of the cell family (a defect that only shows on nearly flat cells is a different finding)"""
+    return "near-degenerate" if family == "near-degenerate" else "well-conditioned"
+
+
 def _rel(dtype):
     return REL32 if np.dtype(dtype) == np.float32 else REL64
 
@@ -204,13 +215,13 @@ def check_functions(tier, seed, only=None):
                 try:
                     V = eval_la2b(cells, dtype, form)
                 except Exception as e:
-                    chk.fail("raises", f"la2b:{name}:{dtype}:{form}", f"lengths_and_angles_to_box_vectors raised {type(e).__name__}: {e}", inp)
+                    chk.fail("raises", f"la2b:{dtype}:{form}:{_cond(name)}:{type(e).__name__}", f"lengths_and_angles_to_box_vectors raised {type(e).__name__}: {e}", inp)
                     continue
                 for c, v in zip(cells, V):
                     bad = gram_violations(v, c, rel) + (orientation_violations(v) if np.all(np.isfinite(v)) else [])
                     if bad:
                         cl, o, e, tol = bad[0]
-                        chk.fail(cl, f"la2b:{name}:{dtype}", f"lengths_and_angles_to_box_vectors{tuple(c)} as {dtype} ({form}): {cl}: {o} vs {e} (tol {tol})",
+                        chk.fail(cl, f"la2b:{dtype}:{_cond(name)}", f"lengths_and_angles_to_box_vectors{_t(c)} [{name}] as {dtype} ({form}): {cl}: {o} vs {e} (tol {tol})",
                                  dict(inp, cell=list(map(float, c))), observed=np.asarray(v, dtype=float), expected=S.standard_vectors(c))
                     else:
                         chk.ok(nontrivial=(tuple(c), dtype, form) if len({c[3], c[4], c[5]}) == 3 else None,
@@ -229,14 +240,14 @@ def check_functions(tier, seed, only=None):
                     try:
                         LA = eval_b2la(Vrot, dtype, form)
                     except Exception as e:
-                        chk.fail("raises", f"b2la:{name}:{dtype}:{form}", f"box_vectors_to_lengths_and_angles raised {type(e).__name__}: {e}", inp)
+                        chk.fail("raises", f"b2la:{dtype}:{form}:{_cond(name)}:{type(e).__name__}", f"box_vectors_to_lengths_and_angles raised {type(e).__name__}: {e}", inp)
                         continue
                     for c, la in zip(cells, LA):
                         bad = la_violations(la[:3], la[3:], c, rel)
                         if bad:
                             cl, o, e, tol = bad[0]
-                            chk.fail(cl, f"b2la:{name}:{dtype}:{'rotated' if rname != 'identity' else 'standard'}",
-                                     f"box_vectors_to_lengths_and_angles on the {rname}-rotated vectors of cell {tuple(c)} ({dtype},{form}): {cl}: {o} vs {e} (tol {tol})",
+                            chk.fail(cl, f"b2la:{dtype}:{_cond(name)}:{'rotated' if rname != 'identity' else 'standard'}",
+                                     f"box_vectors_to_lengths_and_angles on the {rname}-rotated vectors of cell {_t(c)} [{name}] ({dtype},{form}): {cl}: {o} vs {e} (tol {tol})",
                                      dict(inp, cell=list(map(float, c))), observed=la, expected=c)
                         else:
                             chk.ok(nontrivial=(tuple(c), dtype, form, rname) if len({c[3], c[4], c[5]}) == 3 and rname != "identity" else None)
@@ -352,7 +363,7 @@ def check_trajectory(tier, seed, only=None):
                 cl, fr, o, e, tol = bad
                 shape = "F=1" if F == 1 else ("F=3" if F == 3 else "F>3")
                 chk.fail(cl, f"Trajectory:{route}{'' if dtype is None else ':' + dtype}:{shape}",
-                         f"batch {bname} (F={F}) route {route} {rname or ''} {dtype or ''}: frame {fr} cell {None if fr is None else tuple(cells[fr])}: {cl}: {o} vs {e} (tol {tol})",
+                         f"batch {bname} (F={F}) route {route} {rname or ''} {dtype or ''}: frame {fr} cell {None if fr is None else _t(cells[fr])}: {cl}: {o} vs {e} (tol {tol})",
                          dict(inp, frame=fr, cell=None if fr is None else list(map(float, cells[fr]))), observed=o, expected=e)
             else:
                 chk.ok(nontrivial=(bi, route, rname, dtype) if len({tuple(c) for c in cells}) > 1 else None,
